@@ -312,7 +312,13 @@ func (w *World) ConnectLibWithin(handshake time.Duration, real bool, child *Chil
 		}
 		l.C = c
 	}
-	if _, err := l.C.Initialize(ctx, &mcp.InitializeRequest{}); err != nil {
+	stopPre := func() {}
+	if w.PreInit != nil {
+		stopPre = w.PreInit(l.C)
+	}
+	_, err := l.C.Initialize(ctx, &mcp.InitializeRequest{})
+	stopPre()
+	if err != nil {
 		l.Close()
 		return nil, fmt.Errorf("initialize: %w", err)
 	}
